@@ -39,6 +39,7 @@ static int vi_arg1, vi_arg2;	/* the first and second arguments */
 static int vi_ybuf;		/* current yank buffer */
 static int vi_pcol;		/* the column requested by | command */
 static int vi_printed;		/* ex_print() calls since the last command */
+static int vi_scrolled;		/* xleft changed while reading the input */
 static int vi_scroll;		/* scroll amount for ^f and ^d */
 static int vi_soset, vi_so;	/* search offset; 1 in "/kw/1" */
 static int vi_insert;		/* insert mode */
@@ -934,9 +935,12 @@ static char *vi_help(char *ln)
 static char *vi_input(char *pref, char *post, int *row, int *off)
 {
 	char *rep;
+	int left = xleft;
 	vi_insert = 1;
 	rep = led_input(pref, post, &xleft, &xkmap, xhl ? ex_filetype() : "", vi_nextline, vi_help);
 	vi_insert = 0;
+	if (xleft != left)	/* lines were drawn with another offset */
+		vi_scrolled = 1;
 	if (!rep)
 		return NULL;
 	*row = linecount(rep) - 1;
@@ -1532,6 +1536,7 @@ static void vi(void)
 		int noff = ren_noeol(lbuf_get(xb, xrow), xoff);
 		int otop = xtop;
 		int oleft = xleft;
+		vi_scrolled = 0;
 		int orow = xrow;
 		char *opath = ex_path();	/* do not dereference; to detect buffer changes */
 		int mv, n, ru;
@@ -1872,8 +1877,8 @@ static void vi(void)
 		}
 		if (ru && !vi_msg[0])
 			vc_status();
-		if (mod & (VC_ROW | VC_WIN) || xleft != oleft) {
-			int lineonly = mod & VC_ROW && xleft == oleft && xtop == otop;
+		if (mod & (VC_ROW | VC_WIN) || xleft != oleft || vi_scrolled) {
+			int lineonly = mod & VC_ROW && xleft == oleft && xtop == otop && !vi_scrolled;
 			vi_drawagain(xcol, lineonly ? xrow : -1);
 			if (lineonly && xrow != orow)
 				vi_drawagain(xcol, orow);
